@@ -157,14 +157,15 @@ theorem matchV_sound (mt : Meta) : ∀ (p g : V) (d d' : Data), matchV mt p g d 
       split at h
       · rename_i hde
         cases g with
-        | nilS e' => cases h; exact ⟨Mono.refl _, fun σ _ => Inst.nilS e _ (by simp [V.isNil])⟩
+        | nilS e' => cases h; exact ⟨Mono.refl _, fun σ _ => Inst.nilSNil e e' hde⟩
         | slice e' vs =>
           cases vs with
           | nil => cases h; exact ⟨Mono.refl _, fun σ _ => Inst.nilSEmpty e e' hde⟩
           | cons v vs => cases h
         | _ => cases h
-      · split at h
-        · rename_i hn; cases h; exact ⟨Mono.refl _, fun σ _ => Inst.nilS e g hn⟩
+      · rename_i hde
+        split at h
+        · rename_i hn; cases h; exact ⟨Mono.refl _, fun σ _ => Inst.nilS e g (by simpa using hde) hn⟩
         · cases h
   | .iface i pv, g, d, d', h => by
       rw [matchV.eq_def] at h
